@@ -326,35 +326,44 @@ var stMetric = stats.New("metric_choose")
 func TestC19MetricChoose(t *testing.T) {
 	rapid.Check(t, func(t *rapid.T) {
 		tbl := genMetricTable(t, "tbl")
-		n := 1 + uni.Int(t, "nOptions", 10)
-		options := make([]int, n)
-		for i := range options {
-			options[i] = uni.Int(t, fmt.Sprintf("opt%d", i), universe)
-		}
-		nEx := uni.Int(t, "nExisting", 4)
-		existing := make([]int, nEx)
-		for i := range existing {
-			existing[i] = uni.Int(t, fmt.Sprintf("ex%d", i), universe)
-		}
+		// one strategy object serves several unrelated selections (as an emitter reuses it): an answer must not
+		// depend on earlier calls
 		s := ancestor.NewMetricStrategy(metricFn(tbl))
-		a := s.Choose(toEvents(existing), toEvents(options))
-		if a < 0 || a >= n {
-			t.Fatalf("MetricStrategy.Choose answered %d for %d options (options=%v metrics=%v)", a, n, options, tbl)
-		}
-		max, nmax := uint64(0), 0
-		for _, o := range options {
-			if tbl[o] > max {
-				max = tbl[o]
+		calls := 1 + uni.Int(t, "calls", 4)
+		var options []int
+		var a, n int
+		var max uint64
+		nmax := 0
+		for call := 0; call < calls; call++ {
+			n = 1 + uni.Int(t, fmt.Sprintf("nOptions%d", call), 10)
+			options = make([]int, n)
+			for i := range options {
+				options[i] = uni.Int(t, fmt.Sprintf("opt%d_%d", call, i), universe)
 			}
-		}
-		for _, o := range options {
-			if tbl[o] == max {
-				nmax++
+			nEx := uni.Int(t, fmt.Sprintf("nExisting%d", call), 4)
+			existing := make([]int, nEx)
+			for i := range existing {
+				existing[i] = uni.Int(t, fmt.Sprintf("ex%d_%d", call, i), universe)
 			}
-		}
-		if tbl[options[a]] != max {
-			t.Fatalf("MetricStrategy.Choose picked option #%d (id %d, metric %d) but the maximal metric is %d (options=%v metrics=%v)",
-				a, options[a], tbl[options[a]], max, options, tbl)
+			a = s.Choose(toEvents(existing), toEvents(options))
+			if a < 0 || a >= n {
+				t.Fatalf("call %d: MetricStrategy.Choose answered %d for %d options (options=%v metrics=%v)", call+1, a, n, options, tbl)
+			}
+			max, nmax = 0, 0
+			for _, o := range options {
+				if tbl[o] > max {
+					max = tbl[o]
+				}
+			}
+			for _, o := range options {
+				if tbl[o] == max {
+					nmax++
+				}
+			}
+			if tbl[options[a]] != max {
+				t.Fatalf("call %d on the same strategy object: MetricStrategy.Choose picked option #%d (id %d, metric %d) but the maximal metric is %d (options=%v metrics=%v)",
+					call+1, a, options[a], tbl[options[a]], max, options, tbl)
+			}
 		}
 		cls := "unique_max"
 		if max == 0 {
@@ -363,6 +372,9 @@ func TestC19MetricChoose(t *testing.T) {
 			cls = "tie_at_max"
 		}
 		classes := []string{cls}
+		if calls > 1 {
+			classes = append(classes, "strategy_object_reused")
+		}
 		if max >= 1<<32 {
 			classes = append(classes, "max_above_32_bits")
 		}
